@@ -119,6 +119,11 @@ func AsArray(data any) ([]any, error) {
 		{
 			return []any{data}, nil
 		}
+	case nil:
+		{
+			// no row at all (FROM dual with a WHERE that drops its one row)
+			return []any{}, nil
+		}
 	default:
 		{
 			t := reflect.TypeOf(data)
